@@ -4,6 +4,13 @@ import json, os, sys
 ROOT = os.path.dirname(os.path.dirname(os.path.abspath(__file__)))
 
 CHECKS = {
+ "C01": dict(
+   engine="simnet",
+   category="exploration",
+   text="Generated request pipelines (ground truth known by construction) with 27 malformed-framing classes and an attack suffix are rendered to bytes and delivered to the real HttpService/h1 dispatcher over a scripted in-memory socket under generated segmentations (cuts inside heads, CRLF pairs, chunk-size lines, bodies, at message boundaries, 1-byte reads, pauses) and handler timings. The recording service's view must equal the ground truth, malformed messages must end in 4xx + close, body errors must never look like clean ends and nothing after the rejection point may be dispatched. Exploration over ~2*10^5 (quick) to 4*10^6 (thorough) cases per run; no exhaustiveness claimed.",
+   note="Trusts the renderer/ground-truth model in harness/src/httpwire.rs and the scripted socket; Upgrade/CONNECT requests are outside the domain; heads above 128 KiB are a lenient class (exact parse or 4xx) because acceptance depends on read sizes; listed findings exclude their input class by construction (counted in evidence).",
+   technique="property-based testing with ground truth by construction + segmentation metamorphic relation (proptest, scripted socket, paused clock)",
+   design_ref="DESIGN.md §5 C01"),
  "C18": dict(
    engine="pbt",
    category="exploration",
